@@ -93,13 +93,15 @@ PROPERTIES = {
         note='Bounded stand-in, NOT a proof: the operation works on IndexMap<JavaString,..> trees through nested closures and text I/O (outside Verus; CBMC gave no verdict in 10 min on one IndexMap insertion chain), so the real code is run natively on every mapping set of a stated small universe and compared with a model-level oracle written from the property statement (kx/enum/maps.rs: own model, own Tiny v2 renderer/parser). Inputs beyond the bound are not covered.',
         out=['quill/src/lines.rs WithMoreIdentIter on malformed indentation', 'inputs beyond the bound']),
     'C10': dict(
-        level='other', verus=[], kani=[], enum=['maps'],
+        level='other', verus=[], kani=[], enum=['maps', 'dummydiff'],
         technique=ENUM_TECH,
-        explanation='Bounded stand-in for Mappings::remove_dummy: 3844 mapping sets mixing placeholder names (C_, net/minecraft/unmapped/C_, f_, m_, p_, <init>, <clinit>) and real names, with and without comments, at every nesting depth.',
+        explanation='Bounded stand-in for MappingsDiff::insert_dummy_and_contract_inner_names: 173 881 diffs (methods x parameters, fields x classes with inner names in keys and names, several members and classes), each built through the public fields and through .tinydiff text (group dummydiff). '
+                    'Bounded stand-in for Mappings::remove_dummy: 3844 mapping sets mixing placeholder names (C_, net/minecraft/unmapped/C_, f_, m_, p_, <init>, <clinit>) and real names, with and without comments, at every nesting depth.',
         claim='Bounded (not proved), mapping side only: remove_dummy deletes exactly the entries the documented rules name and returns every other entry unchanged, is idempotent, never removes an entry that still has a retained child. '
-              'Not covered: the diff-side filter insert_dummy_and_contract_inner_names.',
+              'Diff side (bounded, not proved): insert_dummy_and_contract_inner_names turns every removal into an edit to the placeholder (source name, p_<index>, simple inner name), discards added fields and parameters and added methods / classes left without children, '
+              'drops exactly the nodes that change nothing and have no remaining child, returns everything else unchanged, is idempotent.',
         note='Bounded stand-in, NOT a proof: the operation works on IndexMap<JavaString,..> trees through nested closures and text I/O (outside Verus; CBMC gave no verdict in 10 min on one IndexMap insertion chain), so the real code is run natively on every mapping set of a stated small universe and compared with a model-level oracle written from the property statement (kx/enum/maps.rs: own model, own Tiny v2 renderer/parser). Inputs beyond the bound are not covered.',
-        out=['quill/src/action/insert_dummy.rs (diff-side filter)']),
+        out=['inputs beyond the stated universes', 'class keys with an empty side of $ (group inner)', 'relative order of kept diff entries']),
     'C05': dict(
         level='other', verus=[], kani=[], enum=['vgraph'],
         technique=ENUM_TECH,
